@@ -298,6 +298,8 @@ func runC05(c *vkit.Collector, rng *vkit.Rng, budget int) {
 	latticeFamily(c, rng, budget)
 	grazeFamily(c, rng, budget)
 	longEdgeFamily(c, rng, budget)
+	bigCapFamily(c, rng, budget)
+	containFamily(c, rng, budget)
 	synthetic(c, rng, budget)
 	// heavy cases: 8 shards evaluate in parallel; deal the cases out by decreasing size so that the shards are balanced
 	const shards = 8
